@@ -66,3 +66,27 @@ def compile_batch(items, tags=None, run_init=True):
         return errs, unstable, init_fail
     finally:
         b.close()
+
+
+def format_verdict_correspondence(out, env, tooldir, specs, obs, name, claim):
+    """cases the real tool rejects in its formatter: the model's own rendering (which does not see the formatter's verdict) is
+    piped through the same formatter; if it formats, the implementation rejected a configuration the specified rendering accepts"""
+    idx = [k for k, o in enumerate(obs) if o.get("exit") == 1 and len(o.get("errors") or []) == 1 and (o["errors"][0].startswith("CodeFormatter.Format"))]
+    if not idx:
+        return 0
+    fake = []
+    for k in idx:
+        o = dict(obs[k])
+        o["exit"], o["errors"] = 0, []
+        fake.append(o)
+    texts, err = model.render_texts(env, [specs[k] for k in idx], fake)
+    if texts is None:
+        out.broke("correspondence:%s format verdict (model evaluation failed)" % name, err)
+        return 0
+    fm = build.gx_format(tooldir, texts)
+    for k, t, f in zip(idx, texts, fm):
+        if "out" in f and t:
+            out.violation("rejected-by-formatter:%s" % (specs[k].get("what") or [""])[0], "%s: the tool fails in go/format (%s) although the specified rendering of this configuration is valid Go" % (claim, obs[k]["errors"][0][:120]),
+                          {"files": specs[k]["files"], "patterns": specs[k]["patterns"], "output": specs[k]["output"], "flags": specs[k]["flags"], "version": specs[k].get("version", ""),
+                           "observed": {"exit": 1, "errors": obs[k]["errors"]}})
+    return len(idx)
